@@ -70,6 +70,12 @@ func runTTL(rep *Report, replay string) {
 			return txn.QueryAt(rows[7].idx, func(r column.Row) error { txn.TTL().Set(0); return nil })
 		})
 		rows[7].deadline = 0
+		// the same two moves through the Row API: clear a short deadline, and replace a short deadline by a long one
+		ins("short-cleared-by-row", func(r column.Row) int64 { return r.SetTTL(short).UnixNano() })
+		ins("short-replaced-by-row", func(r column.Row) int64 { return r.SetTTL(short).UnixNano() })
+		c.QueryAt(rows[8].idx, func(r column.Row) error { r.SetTTL(0); return nil })
+		rows[8].deadline = 0
+		c.QueryAt(rows[9].idx, func(r column.Row) error { rows[9].deadline = r.SetTTL(time.Hour).UnixNano(); return nil })
 		// concurrent unrelated updates, inserts and extensions
 		var stop int32
 		var wg sync.WaitGroup
@@ -144,7 +150,7 @@ func runTTL(rep *Report, replay string) {
 		c.Close()
 		rep.count(fmt.Sprintf("interval=%v", iv))
 		if len(rep.Samples) < 3 {
-			rep.Samples = append(rep.Samples, map[string]interface{}{"interval": iv.String(), "rows": []string{"no-ttl", "ttl-zero", "ttl-negative", "past", "future", "short", "short-extended", "short-reset"}, "short_ttl": short.String(), "margin": margin.String()})
+			rep.Samples = append(rep.Samples, map[string]interface{}{"interval": iv.String(), "rows": []string{"no-ttl", "ttl-zero", "ttl-negative", "past", "future", "short", "short-extended", "short-reset", "short-cleared-by-row", "short-replaced-by-row"}, "short_ttl": short.String(), "margin": margin.String()})
 		}
 	}
 	// writeTTL arithmetic
